@@ -105,6 +105,11 @@ func run(r *core.Run) {
 			r.Section("corpus")
 		}
 	}
+	if only == "" || only == "large" {
+		if runLarge(r) {
+			r.Section("large")
+		}
+	}
 	// the large enumeration last (simplest programs first): a deadline cuts only its tail
 	if only == "" || only == "dsl" {
 		maxOps := core.Pick(r, 3, 4)
@@ -155,6 +160,9 @@ type ReplayCase struct {
 }
 
 func replay(r *core.Run, raw json.RawMessage) bool {
+	if ok, bad := replayLarge(raw); ok {
+		return bad
+	}
 	var c ReplayCase
 	if err := json.Unmarshal(raw, &c); err != nil {
 		fmt.Println(err)
